@@ -3,7 +3,7 @@ import random
 from .common import NONE
 from .drivers_ragged import rnd_val, rnd_slice, BINARY, UNARY
 
-RLV = ["from_array", "from_array", "concat2", "concat3", "pieces", "ufunc", "astype", "derived", "derived2"]
+RLV = ["from_array", "from_array", "concat2", "concat3", "pieces", "ufunc", "astype", "derived", "derived2", "pickled"]
 RL_DTS = ["b1", "i1", "u1", "i2", "u2", "i4", "i8", "i8", "u4", "u8", "f2", "f4", "f8"]
 
 
